@@ -209,5 +209,7 @@ func matchRequirement(req VersionKey, versions []Version) []Version {
 		// TODO: use the attributes properly
 		matches = append(matches, v2)
 	}
+	// The result is in ascending order whatever the order of the input.
+	SortVersions(matches)
 	return matches
 }
